@@ -38,13 +38,17 @@ class Node:
 
 
 class Trace:
-    def __init__(self, facts, entry, classify, relevant_fn=None, max_depth=12, const_args=None, classify_stmt=None):
+    def __init__(self, facts, entry, classify, relevant_fn=None, max_depth=12, const_args=None, classify_stmt=None, view=None):
         """classify(fn, bb, term, callee_record, local_target) -> list of event dicts (may be empty) for the
         terminator of block bb; classify_stmt is not needed: all events of interest are calls / drops.
         relevant_fn: set of Fn that must be inlined (those that transitively contain events); computed when None.
         const_args: {param local index: bool} constant specialisation of the entry's boolean parameters."""
         self.facts = facts
-        self.entry = entry
+        # view(fn): the body to walk for fn -- by default fn itself; rule contexts pass the folded view (private non-role helpers inlined), so that an event
+        # written in a small helper is seen inside the function that the rules reason about
+        self.view = view or (lambda f: f)
+        self.raw_entry = entry
+        self.entry = self.view(entry)
         self.classify = classify
         self.classify_stmt = classify_stmt
         self.max_depth = max_depth
@@ -204,6 +208,7 @@ class Trace:
             if k == 'call':
                 inline = (local_target is not None and local_target in self._relevant)
                 if inline:
+                    local_target = self.view(local_target)
                     depth = len(ctx)
                     # recursion / depth cut: summary node carrying every event the callee can emit
                     on_stack = [c[2] for c in ctx] + [self.entry]
